@@ -358,10 +358,15 @@ func TestC15Decode(t *testing.T) {
 	}, execCase)
 }
 
-// atoms are the implemented opcodes with canonical small operands; every program of up to three
-// atoms (with and without a final STOP) is decoded: a bounded-exhaustive core of short inputs.
+// atoms are all opcodes of the pickle protocol (implemented or not) with canonical small operands;
+// every program of up to three atoms (with and without a final STOP) is decoded: a bounded-exhaustive
+// core of short inputs.
 var atoms = []string{"(", ".", "\x94", "h\x00", "h\x01", "j\x00\x00\x00\x00", "N", "\x88", "\x89", "I7\n", "K\x01", "M\x01\x01", "J\x01\x00\x00\x00", "G\x00\x00\x00\x00\x00\x00\xf0?",
-	"\x8c\x01a", "X\x01\x00\x00\x00b", "C\x01c", "B\x01\x00\x00\x00d", "]", "a", "e", ")", "\x85", "\x86", "\x87", "t", "}", "u", "\x8f", "\x90", "\x93", "\x81", "\x8c\x04dawn", "\x8c\x06Target", "\x8c\x08Function", "\x8c\x0cFunctionCode", "\x8c\x07Builtin", "\x8c\x05verif"}
+	"\x8c\x01a", "X\x01\x00\x00\x00b", "C\x01c", "B\x01\x00\x00\x00d", "]", "a", "e", ")", "\x85", "\x86", "\x87", "t", "}", "u", "\x8f", "\x90", "\x93", "\x81", "\x8c\x04dawn", "\x8c\x06Target", "\x8c\x08Function", "\x8c\x0cFunctionCode", "\x8c\x07Builtin", "\x8c\x05verif",
+	// the opcodes of the pickle protocol that this decoder does not implement (they must stay errors, or
+	// behave well if someone implements them): memo stores with small and gapped ids, protocol headers, stack ops...
+	"q\x00", "q\x01", "q\x02", "r\x01\x00\x00\x00", "r\x03\x00\x00\x00", "p0\n", "p2\n", "g0\n", "g1\n", "h\x02", "j\x02\x00\x00\x00", "\x80\x02", "\x80\x04", "\x95\x00\x00\x00\x00\x00\x00\x00\x00",
+	"0", "1", "2", "F1.5\n", "L7L\n", "S'a'\n", "T\x01\x00\x00\x00a", "U\x01a", "Va\n", "b", "cdawn\nTarget\n", "d", "l", "o", "i", "s", "R", "P", "Q", "\x82\x01", "\x8a\x01\x07", "\x8b\x01\x00\x00\x00\x07", "\x91", "\x92", "\x8d\x01\x00\x00\x00\x00\x00\x00\x00a", "\x8e\x01\x00\x00\x00\x00\x00\x00\x00a", "\x96\x01\x00\x00\x00\x00\x00\x00\x00a", "\x97", "\x98"}
 
 func TestC15ShortPrograms(t *testing.T) {
 	n := len(atoms)
